@@ -3,7 +3,7 @@
    needed for the bounds); [benv] is an arbitrary assignment of bind parameter objects. *)
 From Coq Require Import List NArith ZArith Bool.
 Import ListNotations.
-From SAV.sql Require Import Trunc TruncDigits TruncMaxlen TruncLabels TruncRunProofs TruncExtra.
+From SAV.sql Require Import Trunc TruncDigits TruncMaxlen TruncLabels TruncRunProofs TruncExtra TruncRename.
 Local Open Scope Z_scope.
 
 (* ================= constraint and index names ================= *)
@@ -171,6 +171,22 @@ Theorem c21_same_element_same_name : forall benv ll rs st os r o1 o2,
   In (r, o1) (combine rs os) -> In (r, o2) (combine rs os) -> o1 = o2.
 Proof. exact run_stable. Qed.
 Print Assumptions c21_same_element_same_name.
+
+(* same on every compilation: the identities (Python id()) inside anonymous names may be renamed by any
+   injective function without changing a single rendered name or the success of the compilation *)
+Theorem c21_names_independent_of_object_ids : forall (f : N -> N), (forall a b, f a = f b -> a = b) ->
+  forall benv benv' : N -> bindrec,
+  (forall oid, b_key (benv' oid) = rn_bkey f (b_key (benv oid))
+               /\ b_unique (benv' oid) = b_unique (benv oid)
+               /\ b_expanding (benv' oid) = b_expanding (benv oid)) ->
+  forall ll rs,
+  match run benv ll init_state rs, run benv' ll init_state (map (rn_req f) rs) with
+  | Ok (_, os), Ok (_, os') => os = os'
+  | Raise e, Raise e' => e = e'
+  | _, _ => False
+  end.
+Proof. exact names_independent_of_ids. Qed.
+Print Assumptions c21_names_independent_of_object_ids.
 
 (* bind parameters: no two different parameters share a name if one of them is anonymous ("unique") *)
 Theorem c21_unique_binds_distinct : forall benv ll rs st os o1 o2 n1 n2,
